@@ -100,7 +100,7 @@ fn projection_key(root: &Path, img: &Image) -> Vec<u8> {
 }
 
 /// File names (relative to the index root) a MANIFEST.json content refers to.
-fn manifest_refs(root: &Path, m: &[u8]) -> Vec<String> {
+pub fn manifest_refs(root: &Path, m: &[u8]) -> Vec<String> {
   let mut out = Vec::new();
   if let Ok(v) = serde_json::from_slice::<Value>(m) {
     if let Some(segs) = v.get("segments").and_then(|s| s.as_array()) {
@@ -228,7 +228,7 @@ pub fn run_transition(cfg: &Config, hist: &[Op], knobs: &Knobs, violations: &Mut
   let mut fsm = FsModel::new(&root_s);
   let mut memo: HashMap<Vec<u8>, Recovered> = HashMap::new();
   let in_flight_possible = matches!(last, Op::Commit(_) | Op::Compact);
-  let mut prev_state_images: Option<u32> = None;
+  let mut prev_state_images: Option<u64> = None;
   let is_state_changing = |op: &FsOp| {
     matches!(op, FsOp::Open { .. } | FsOp::Write { .. } | FsOp::Truncate { .. } | FsOp::Fsync { .. } | FsOp::Rename { .. } | FsOp::Unlink { .. })
   };
@@ -262,11 +262,12 @@ pub fn run_transition(cfg: &Config, hist: &[Op], knobs: &Knobs, violations: &Mut
     res.capped |= capped;
     // skip a cut whose image set is identical to the previous cut's (cheap fingerprint)
     let fp = {
-      let mut h = crc32fast::Hasher::new();
+      use std::hash::{Hash, Hasher};
+      let mut h = std::collections::hash_map::DefaultHasher::new();
       for im in &images {
-        h.update(&hash_image(im).to_le_bytes());
+        hash_image(im).hash(&mut h);
       }
-      h.finalize()
+      h.finish()
     };
     if prev_state_images == Some(fp) && !at_end {
       continue;
